@@ -63,6 +63,10 @@ func (h265dp *h265Depacketizer) Depacketize(packet *Packet) (err error) {
 	}
 
 	naluType := (payload[0] >> 1) & 0x3f
+	if naluType != hevc.NalFuInRtp {
+		// 分片单元进行中收到了其它包：该单元已不完整或已被后面的包越过，放弃它以保持输出顺序
+		h265dp.fragments = h265dp.fragments[:0]
+	}
 
 	switch naluType {
 	case hevc.NalStapInRtp: // 在RTP中的聚合（AP）
